@@ -83,6 +83,11 @@ func (NS) MN() {}
 
 type INS interface{ MN() }
 
+// NS2 is a second, distinct named slice over the same element type.
+type NS2 []*TA
+
+func (NS2) M2() {}
+
 var (
 	tA   = reflect.TypeOf((*TA)(nil))
 	tB   = reflect.TypeOf((*TB)(nil))
@@ -92,6 +97,7 @@ var (
 	tIAB = reflect.TypeOf((*IAB)(nil)).Elem()
 	tNS  = reflect.TypeOf(NS(nil))
 	tINS = reflect.TypeOf((*INS)(nil)).Elem()
+	tNS2 = reflect.TypeOf(NS2(nil))
 	tErr = reflect.TypeOf((*error)(nil)).Elem()
 	tInt = reflect.TypeOf(int(0))
 )
@@ -118,6 +124,8 @@ func TypeOf(code string) reflect.Type {
 		return tNS
 	case "INS":
 		return tINS
+	case "NS2":
+		return tNS2
 	case "int":
 		return tInt
 	case "error":
